@@ -43,6 +43,7 @@ type LoopSpec struct {
 	Invariants []*Clause
 	Modifies   []*Clause
 	Steps      []*Clause // transition properties of one iteration (checked at the back edge only)
+	Unroll     int       // >0: no invariant, the loop is unrolled (bounded check)
 }
 
 type FnParamSpec struct {
@@ -65,6 +66,8 @@ type Contract struct {
 	Modifies []*Clause
 	Loops    map[int]*LoopSpec
 	FnParams map[string]*FnParamSpec
+	TimeoutS   int  // per-obligation solver timeout for this function (quick tier)
+	AlsoInline bool // verified against its contract, but inlined at call sites (tiny helpers whose allocations must stay concrete)
 	Inline   bool
 	Trusted  string // non-empty: contract assumed (reason)
 	Abstract string // non-empty: callers use contract, body not verified (reason)
@@ -143,7 +146,7 @@ type ContractSet struct {
 var clauseKeywords = map[string]bool{
 	"property": true, "requires": true, "ensures": true, "modifies": true, "loop": true,
 	"inline": true, "trusted": true, "abstract": true, "nosafety": true, "replay": true,
-	"bounded": true, "note": true, "fnparam": true, "dispatch": true, "unroll": true, "assumes": true, "split": true, "fresh": true, "witness": true, "unguarded": true,
+	"bounded": true, "note": true, "fnparam": true, "dispatch": true, "unroll": true, "assumes": true, "split": true, "fresh": true, "witness": true, "unguarded": true, "alsoinline": true, "timeout": true,
 }
 
 var propPrefix = regexp.MustCompile(`^\[((?:C\d+\s*)+)\]\s*`)
@@ -476,6 +479,12 @@ func (c *Contract) addClause(text string, line int, file string) error {
 				return err
 			}
 			ls.Modifies = append(ls.Modifies, cl)
+		case "unroll":
+			n, err := strconv.Atoi(strings.TrimSpace(rest2))
+			if err != nil {
+				return err
+			}
+			ls.Unroll = n
 		case "step":
 			cl, err := mk("step", rest2)
 			if err != nil {
@@ -521,6 +530,14 @@ func (c *Contract) addClause(text string, line int, file string) error {
 		}
 	case "inline":
 		c.Inline = true
+	case "alsoinline":
+		c.AlsoInline = true
+	case "timeout":
+		n, err := strconv.Atoi(rest)
+		if err != nil {
+			return err
+		}
+		c.TimeoutS = n
 	case "trusted":
 		c.Trusted = rest
 		if rest == "" {
